@@ -70,3 +70,52 @@ def programs(seed, n, kinds=("abelian", "fermionic"), syms=gen.SYMS, tids=None):
             steps.append(followup(rng, kind, f"o{j}", 0))
         progs.append({"tid": tids(), "inputs": {"x": x}, "steps": steps})
     return progs
+
+
+def binary_programs(seed, n, kinds=("fermionic", "abelian"), syms=gen.SYMS, tids=None):
+    """Out-of-place operations with two operands that carry pending signs / missing blocks: contraction over
+    zero, one or several legs in every mode (incl. the outer product), matmul, arithmetic, align_axes.  Nothing
+    is asserted by the driver: the frame clause compares both operands around every call."""
+    from .contract import partner_for
+
+    tids = tids or gen.Tids()
+    progs = []
+    for i in range(n):
+        rng = gen.rng_for(seed, "alias2", i)
+        sym = syms[i % len(syms)]
+        kind = kinds[(i // len(syms)) % len(kinds)]
+        ph = 0.6 if kind == "fermionic" else 0.0
+        rank = rng.randint(1, 3)
+        x = gen.rand_array(rng, sym, rank, kind, sparse=0.3, phases=ph, oddpos=rng.randint(1, 4),
+                           dtype=rng.choice(["float64", "complex128"]), maxd=2)
+        steps = []
+        inputs = {"x": x}
+        for t, ncon in enumerate(sorted({0, rng.randint(0, rank), rank})):
+            nfree = rng.randint(0 if ncon else 1, 2)
+            b, axes_a, axes_b = partner_for(rng, x, ncon, nfree, kind, oddpos=5 + t, phases=ph, sparse=0.3, maxd=2)
+            inputs[f"b{t}"] = b
+            for mode in ("auto", "fused", "blockwise"):
+                steps.append({"op": "tensordot", "in": ["x", f"b{t}"], "out": [f"t{t}{mode[0]}"],
+                              "args": {"axes": [list(axes_a), list(axes_b)], "mode": mode, "preserve_array": True},
+                              "entry": rng.choice(["symmray", "autoray"])})
+            if ncon == 0:
+                steps.append({"op": "tensordot", "in": ["x", f"b{t}"], "out": [f"t{t}n"], "args": {"naxes": 0}, "entry": "symmray"})
+                steps.append({"op": "tensordot", "in": [f"b{t}", "x"], "out": [f"t{t}r"], "args": {"naxes": 0}, "entry": "symmray"})
+            if ncon:
+                steps.append({"op": "align_axes", "in": ["x", f"b{t}"], "out": [f"al{t}a", f"al{t}b"],
+                              "args": {"axes": [list(axes_a), list(axes_b)]}})
+        # a sibling for the elementwise operations
+        y = dict(x)
+        nsec = len(gen.D.valid_sectors(sym, x["ix"], tuple(x["charge"])))
+        y["drop"] = sorted(rng.sample(range(nsec), rng.randint(0, max(0, nsec - 1)))) if nsec else []
+        y["fill"] = {"start": 40, "step": 1, "alt": True}
+        if kind == "fermionic" and nsec:
+            y["phases"] = sorted(k for k in range(nsec - len(y["drop"])) if rng.random() < 0.5)
+        inputs["y"] = y
+        for op in ("add", "sub", "mul"):
+            steps.append({"op": op, "in": ["x", "y"], "out": [f"e_{op}"], "args": {}})
+        steps.append({"op": "allclose", "in": ["x", "y"], "out": ["ac"], "args": {}})
+        steps.append({"op": "to_dense", "in": ["x"], "out": ["dn"], "args": {}})
+        steps.append({"op": "norm", "in": ["x"], "out": ["nm"], "args": {}})
+        progs.append({"tid": tids(), "inputs": inputs, "steps": steps})
+    return progs
